@@ -1,0 +1,10 @@
+//go:build verif
+
+package cli
+
+// ReadConfigForVerif exposes the CLI config reader (config file -> defaults such as
+// discard_overflow -> decode) to the verification harness. Compiled only with the
+// build tag verif.
+func ReadConfigForVerif(args []string) *CliConfig {
+	return readConfig(args)
+}
